@@ -208,11 +208,29 @@ def rule_cache_key(ctx: Ctx, rule: str) -> None:
     uses_cache = any(isinstance(c, ast.Call) and norm_src(c.func) == '_compile' for c in walk_no_nested(tr.node))
     ctx.ob(rule, f'{WP}:translate/bypasses-cache', not uses_cache, repo.loc(WP, tr.node), 'translate builds WcParse directly',
            'uses _compile' if uses_cache else 'direct')
-    body = [s for s in fi.node.body if not (isinstance(s, ast.Expr) and isinstance(s.value, ast.Constant))]
-    okb = len(body) == 1 and isinstance(body[0], ast.Return) and \
-        norm_src(body[0].value) == 're.compile(WcParse(pattern, flags & FLAG_MASK).parse())'
-    ctx.ob(rule, f'{WP}:_compile/body', okb, repo.loc(WP, fi.node), 're.compile(WcParse(pattern, flags & FLAG_MASK).parse())',
-           norm_src(body[0])[:90] if body else 'empty', witness='the cached value must be a function of the key only')
+    from .common import api_table
+    from ..symeval import ALL, BV, Opaque, focus
+    MASK = repo.const(WP, 'FLAG_MASK')
+    _ev, paths = api_table(repo, WP, '_compile')
+    bad = []
+    for p in paths:
+        focus(p)
+        ws = p.calls_to(f'{WP}:WcParse')
+        rc = p.calls_to('re.compile')
+        if len(ws) != 1 or len(rc) != 1 or p.decisions:
+            bad.append(f'{len(ws)} WcParse / {len(rc)} re.compile calls, decisions {sorted(p.decisions)}')
+            continue
+        a_ = ws[0][1]
+        fl = a_[1] if len(a_) > 1 else ws[0][2].get('flags')
+        if not a_ or a_[0] != Opaque('pattern') or not isinstance(fl, BV) or fl.origin != 'flags' or fl.known != (ALL & ~MASK) or fl.val != 0:
+            bad.append(f'WcParse({a_})')
+        arg = rc[0][1][0] if rc[0][1] else None
+        if not (isinstance(arg, Opaque) and arg.tag.startswith(f'{WP}:WcParse(') and arg.tag.endswith('.parse()')) or len(rc[0][1]) != 1 or rc[0][2]:
+            bad.append(f're.compile({rc[0][1]}, {rc[0][2]})')
+        if not (isinstance(p.ret, Opaque) and p.ret.tag.startswith('re.compile(')):
+            bad.append(f'returns {p.ret!r}')
+    ctx.ob(rule, f'{WP}:_compile/body', not bad and len(paths) == 1, repo.loc(WP, fi.node), 're.compile(WcParse(pattern, flags & FLAG_MASK).parse()) and nothing else',
+           'as expected' if not bad else bad[0][:160], witness='the cached value must be a function of the key only')
 
 
 PER_CALL_CLASSES = [(WP, 'WcParse'), (WP, 'WcSplit'), ('glob', '_GlobSplit'), ('_wcmatch', '_Match'), ('glob', 'Glob'),
@@ -259,7 +277,7 @@ def rule_per_call_objects(ctx: Ctx, rule: str) -> None:
                     ok, how = False, f'escapes via {type(p).__name__}: {norm_src(p)[:60]}'
                 ctx.ob(rule, f'{fi.fq}/{r.name}()@{n}', ok, repo.loc(m.name, c), 'consumed at once or bound to a local', how,
                        witness='storing a parser on self/module shares mutable parse state between calls and threads')
-    ctx.floor(rule, 'constructions of per-call objects', n, 13)
+    ctx.floor(rule, 'constructions of per-call objects', n, 8)
     # attribute-store census of WcParse: all stores are on self
     cls = repo.cls(WP, 'WcParse')
     bad = []
